@@ -8,6 +8,11 @@ def R(pkg, run, quick, thorough, **kw):
 LAB = "./internal/zzverif/lab"
 
 CHECKS = {
+    "C04": {
+        "runs": [
+            R(LAB, "^TestC04", {"checks": 1500, "timeout": 600}, {"checks": 4000, "shards": 16, "timeout": 2400}),
+        ],
+    },
     "C02": {
         "runs": [
             R(LAB, "^TestC02", {"checks": 1200, "timeout": 600}, {"checks": 3000, "shards": 16, "timeout": 2400}),
@@ -44,6 +49,10 @@ CHECKS = {
 LEVELS = {}  # default: exploration
 
 RULES = {
+    "C04": "rapid draws a configuration (basic auth with plain / colon-containing password, deny-domains list with an exclude rule, proxy-localhost deny/allow, allow-time-frame containing / excluding now (3 weekdays away), MITM on/off) and a connection history of 1-4 requests: absolute-form, origin-form, CONNECT, and requests inside the MITM'd tunnel; "
+           "target host from DNS names (case variants, denied / excluded / look-alike) or 19+ localhost spellings (names from /etc/hosts parsed independently, any case, trailing dot, 127/8, 0.0.0.0, ::1 / :: in compressed, expanded, zero-padded, IPv4-mapped and zoned forms), with or without port; 20 credential shapes (absent, exact, wrong user/pass, prefix/suffix/case variants, lower-case scheme, Bearer, Digest, broken base64, missing colon, sent as Authorization, empty, two disagreeing fields, mixed-case field name); HTTP/1.0 and 1.1. "
+           "Oracle: independent decision function -> set of failing controls; refusal status must be one of theirs, 407 must carry a Basic challenge, and dial log + accept and byte counters of every scripted origin must be unchanged; otherwise the origin must have served the request (tunnels are probed). "
+           "Non-trivial = a request that must be refused and is a CONNECT, inside a tunnel, not first on its connection, uses a non-canonical localhost spelling or a near-miss credential. Distinct = distinct (configuration, history).",
     "C02": "rapid draws a connection history of 1-5 exchanges for one of three proxies (direct, upstream HTTP proxy, MITM): request method GET/HEAD/POST, client Accept-Encoding none/gzip/identity, HTTP/1.0 or Connection: close on the last; origin response with status from 14 codes incl. 204/304, custom or empty reason, up to 7 fields with repeated and case-variant names plus Connection-nominated and other hop-by-hop fields, "
            "framing Content-Length / chunked with generated chunk sizes / chunked with declared trailers / read-to-close (last exchange only) / bodiless with Content-Length, Transfer-Encoding+Trailer or no framing fields, body sizes around 4 KiB and 32 KiB, gzip when solicited by the proxy or by the client, text/event-stream bodies, raw response written in generated segments (splitting chunk-size lines and CRLFs), "
            "incremental mode where the origin sends one chunk/event and blocks until the client has received it. The client parses the byte stream as a response sequence with the harness codec: k-th response carries the id of the k-th request, status, reason, per-name ordered fields in both directions, body bytes (gunzipped only when the proxy solicited gzip), trailers, exact message ends, undelimited-message detection, incremental delivery. "
@@ -68,6 +77,11 @@ RULES = {
 }
 
 ASSUMPTIONS = {
+    "C04": ["no precedence between simultaneously failing controls is asserted (status must be one of theirs)",
+            "requests with several disagreeing Proxy-Authorization fields may be refused with 407 or forwarded",
+            "deny rules are written with (?i); case handling of user regexps is C17's subject",
+            "local spellings that a plain dial from the sandbox cannot reach are only checked for refusal, not for forwarding",
+            "'no upstream activity' is observed immediately after the refusal reached the client (the proxy handles a connection sequentially)"],
     "C02": ["responses are parsed by their own version and fields (an HTTP/1.1 chunked reply to an HTTP/1.0 request is accepted; RFC 9112's MUST NOT is not asserted)",
             "read-to-close origin replies and origin 'Connection: close' are generated on the last exchange only (the proxy may close the client connection after them)",
             "incremental delivery is asserted for event streams (origin chunks aligned to whole events) and for chunked bodies, with a 5 s bound and one retry",
@@ -91,6 +105,11 @@ ASSUMPTIONS = {
 # MANIFEST texts
 
 META = {
+    "C04": {
+        "technique": "property-based testing (rapid): generated configurations x connection histories against real proxies, reference decision function as oracle, upstream activity measured by dial log and per-listener accept/byte counters",
+        "text": "Every generated request is classified by an independent decision function; refusals are checked for status, challenge header and complete absence of upstream activity, admissible requests must reach the origin (also through CONNECT tunnels and inside MITM). 1500 histories quick, 64000 thorough.",
+        "note": "Proxies are cached per configuration (48 configurations); time-frame configurations are built 3 weekdays away from now so the check is not clock-sensitive.",
+    },
     "C02": {
         "technique": "property-based testing (rapid) over generated exchange histories on one keep-alive connection; round-trip oracle with an independent strict HTTP/1 response-sequence parser at the raw client; gate-controlled origin for incremental delivery",
         "text": "Generated response scripts (status, reason, fields, framing, chunking, trailers, gzip, SSE, write segmentation) are served by a scripted origin through real proxies; the raw client must be able to parse exactly the k-th response for the k-th request with identical content, and incremental mode deadlocks if the proxy buffers. 1200 histories quick, 48000 thorough.",
